@@ -80,7 +80,7 @@ def jwt_login_required(admin=False, permission: Group | None = None):
 
 def csrf_token_required(
         service: str,
-        next_url: Callable[..., str | None] = lambda: None,
+        next_url: Callable[..., str | None] = lambda *args, **kwargs: None,
         optional: bool = False):
     """
     Decorator that requires a CSRF token check to pass
@@ -92,7 +92,11 @@ def csrf_token_required(
             has_payload: bool = flask.request.method in {'POST', 'PUT'}
             try:
                 if has_payload and flask.request.is_json:
-                    token = flask.request.get_json().get('csrf_token', None)
+                    payload = flask.request.get_json()
+                    if isinstance(payload, dict):
+                        token = payload.get('csrf_token', None)
+                    if token is not None and not isinstance(token, str):
+                        raise CsrfFailureException('csrf_token is not a string')
                 if token is None:
                     token = flask.request.args.get('csrf_token')
                 if token is None and has_payload:
